@@ -182,18 +182,21 @@ Definition seg_age (e pe : endpoint) (r : tcp_repr) : Prop :=
      - 2147483648 <= c - una_off e < 2147483648).
 
 (* the hypothesis on the adversary: every NDeliver of a run satisfies seg_age *)
+Definition ev_age (st : net) (ev : net_event) : Prop :=
+  match ev with
+  | NDeliver to i =>
+      match nth_error (ep_out (net_get st (side_other to))) i with
+      | Some p => seg_age (net_get st to) (net_get st (side_other to)) (snd p)
+      | None => True
+      end
+  | _ => True
+  end.
+
 Fixpoint run_age (st : net) (evs : list net_event) : Prop :=
   match evs with
   | [] => True
   | ev :: rest =>
-      match ev with
-      | NDeliver to i =>
-          match nth_error (ep_out (net_get st (side_other to))) i with
-          | Some p => seg_age (net_get st to) (net_get st (side_other to)) (snd p)
-          | None => True
-          end
-      | _ => True
-      end /\
+      ev_age st ev /\
       match net_step st ev with
       | Ok st' => run_age st' rest
       | _ => True
